@@ -204,6 +204,40 @@ def relation(e):
     return r, l, e.op == '>'
 
 
+def emptiness_test(e, base_ok):
+    """Is the condition atom `e` an emptiness test of a container accepted by `base_ok(node)`?
+    Returns (value of "is empty" when the atom is true, base node) or None.  Recognised spellings:
+    x.empty(), x.size() == 0, x.size() != 0, x.size() > 0, x.size() >= 1, x.size() < 1,
+    x.size() <= 0 (and the same with length()), each under any number of `!`."""
+    from ..cfg import const_eval
+    base, pos = unnegate(e)
+    if base is None:
+        return None
+
+    def size_of(x):
+        x = strip_casts(x)
+        if x is not None and x.kind == 'CXXMemberCallExpr' and x.callee_name() in ('size', 'length') and \
+                base_ok(x.call_base()):
+            return x.call_base()
+        return None
+    if base.kind == 'CXXMemberCallExpr' and base.callee_name() == 'empty' and base_ok(base.call_base()):
+        return pos, base.call_base()
+    if base.kind == 'BinaryOperator' and base.op in ('==', '!=') and len(base.kids) == 2 and \
+            const_eval(base.kids[1]) == 0 and size_of(base.kids[0]) is not None:
+        v = (base.op == '==')
+        return (v if pos else not v), size_of(base.kids[0])
+    rel = relation(base)
+    if rel is not None:
+        small, big, strict = rel
+        for cond, val, node in ((const_eval(small) == 0 and strict, False, big),
+                                (const_eval(big) == 0 and not strict, True, small),
+                                (const_eval(small) == 1 and not strict, False, big),
+                                (const_eval(big) == 1 and strict, True, small)):
+            if cond and size_of(node) is not None:
+                return (val if pos else not val), size_of(node)
+    return None
+
+
 def if_outcome(ifstmt, node):
     """the outcome of the un-negated condition of `ifstmt` under which `node` runs: True, False,
     or None when the node is in neither arm.  `if (!(c)) B else A` and `if (c) A else B` agree."""
